@@ -12,6 +12,8 @@ try:
 except gen.Undecided as e:
     print("UNDECIDED:", e); sys.exit(2)
 m = json.load(open(os.path.join(out, "map.json")))
+for k, f in m["functions"].items():
+    if f["mode"] == "undecided": print("UNDECIDED function:", k, "--", f.get("reason"))
 pat = re.compile(sys.argv[1])
 mods = [f["module"] for k, f in m["functions"].items() if pat.search(k) and f["mode"] not in ("skip", "assumed")]
 cmd = ["verus", "pq_verif.rs", "--triggers-mode", "silent", "--num-threads", "16", "--multiple-errors", "5", "--rlimit", "40"]
